@@ -73,16 +73,19 @@ def c08(pid, tier, seed):
     try:
         for feats in ((), ("import-esm",)):
             binp = build_fixed(feats)
-            res = run_sharded(binp, "C08", seed, tier, 1, "c08" + ("-esm" if feats else ""))
+            res = run_sharded(binp, "C08", seed, tier, min(C.NCPU, 8 if tier == "quick" else 16), "c08" + ("-esm" if feats else ""))
             runs_ok(chk, res, "C08")
             for r in res:
                 for e in r["events"]:
                     if e.get("ev") == "summary":
                         chk.add_eval(e["pairs"])
-                        chk.hist("per_config", "esm" if e["esm"] else "default",
-                                 0)
-                        chk.coverage_extra["per_config"]["esm" if e["esm"] else "default"] = {
-                            k: e[k] for k in ("pairs", "ok_results", "err_results", "above_root", "distinct_specifiers", "fs_checked", "depth")}
+                        acc = chk.coverage_extra.setdefault("per_config", {}).get("esm" if e["esm"] else "default")
+                        if not isinstance(acc, dict):
+                            acc = {}
+                        for k in ("pairs", "ok_results", "err_results", "above_root", "distinct_specifiers", "fs_checked"):
+                            acc[k] = acc.get(k, 0) + e[k]       # (distinct specifiers: summed per shard)
+                        acc["depth"] = e["depth"]
+                        chk.coverage_extra["per_config"]["esm" if e["esm"] else "default"] = acc
                         if e["esm"] != bool(feats):
                             chk.note_inconclusive("feature configuration of the binary does not match the requested one")
                         # python cross-check of the sampled pairs
